@@ -175,6 +175,11 @@ func devModuleTextX(name string, imports [][2]string, devs []Deviation, own stri
 	var sb strings.Builder
 	fmt.Fprintf(&sb, "module %s {\n  namespace \"urn:%s\";\n  prefix %s;\n", name, name, name)
 	for _, im := range imports {
+		if i := strings.IndexByte(im[0], '@'); i > 0 {
+			// "name@date": the import pins that revision
+			fmt.Fprintf(&sb, "  import %s { prefix %s; revision-date %s; }\n", im[0][:i], im[1], im[0][i+1:])
+			continue
+		}
 		fmt.Fprintf(&sb, "  import %s { prefix %s; }\n", im[0], im[1])
 	}
 	// typedefs of the deviating module itself, usable as replacement types: with units and a default,
@@ -558,6 +563,88 @@ func C08Exhaustive() []C08Case {
 	out = append(out, c08SubmoduleCases()...)
 	out = append(out, c08TypeOnlyCases()...)
 	out = append(out, c08ShadowCases()...)
+	out = append(out, c08RevisionCases()...)
+	return out
+}
+
+// c08RevisionCases: two revisions of the deviated module are loaded.  The deviating module's import
+// says which one it means (revision-date: that one; none: the newest), and that tree — and only that
+// tree — is deviated: the other revision's tree is part of the frame.  The revisions differ: a node
+// only in the old one, a node only in the new one, equal nodes with different defaults.
+func c08RevisionCases() []C08Case {
+	var out []C08Case
+	st := func(kind string, pv ...string) DevStmt {
+		s := NewDevStmt(kind)
+		for i := 0; i+1 < len(pv); i += 2 {
+			s.Set(pv[i], pv[i+1])
+		}
+		return s
+	}
+	rev := func(date, def, only string) string {
+		return "module b {\n  namespace \"urn:b\";\n  prefix b;\n  revision " + date + ";\n  leaf s0 { type string; default keep; }\n" +
+			"  leaf t { type string; default " + def + "; }\n  leaf " + only + " { type string; default d1; }\n" +
+			"  container c { leaf x { type string; default " + def + "; } leaf y { type string; } }\n}\n"
+	}
+	newT, oldT := rev("2020-01-01", "dnew", "newonly"), rev("2019-01-01", "dold", "oldonly")
+	const newN, oldN = "b@2020-01-01", "b@2019-01-01"
+	has := map[string]map[string]bool{newN: {"t": true, "c/x": true, "newonly": true}, oldN: {"t": true, "c/x": true, "oldonly": true}}
+	stmts := []struct {
+		name string
+		s    []DevStmt
+	}{
+		{"replace-default", []DevStmt{st("replace", "default", "x")}},
+		{"delete-default-old", []DevStmt{st("delete", "default", "dold")}},
+		{"delete-default-new", []DevStmt{st("delete", "default", "dnew")}},
+		{"add-units", []DevStmt{st("add", "units", "u1")}},
+		{"not-supported", []DevStmt{NewDevStmt("not-supported")}},
+	}
+	mk := func(combo string, newFirst bool, devs []Deviation, imp map[string]string) {
+		c := C08Case{Label: combo, Combo: combo, Devs: devs}
+		if newFirst {
+			c.BaseNames, c.BaseTexts = []string{"b@2020-01-01.yang", "b@2019-01-01.yang"}, []string{newT, oldT}
+		} else {
+			c.BaseNames, c.BaseTexts = []string{"b@2019-01-01.yang", "b@2020-01-01.yang"}, []string{oldT, newT}
+		}
+		for _, m := range []string{"dvb", "dva"} {
+			if imp[m] == "" {
+				continue
+			}
+			c.DevMods = append(c.DevMods, m)
+			c.DevNames = append(c.DevNames, m+".yang")
+			c.DevTexts = append(c.DevTexts, devModuleText(m, [][2]string{{imp[m], "b"}}, devs))
+		}
+		out = append(out, c)
+	}
+	dev := func(m, tree, path string, s []DevStmt) Deviation {
+		d := Deviation{Module: m, Arg: "/b:" + strings.ReplaceAll(path, "/", "/b:"), Stmts: s}
+		if has[tree][path] {
+			d.Target, d.TargetMod = "/b/"+path, tree
+		} else {
+			d.Missing = true
+		}
+		return d
+	}
+	pins := []struct{ name, imp, tree string }{{"pinned-old", oldN, oldN}, {"pinned-new", newN, newN}, {"unpinned", "b", newN}}
+	for _, newFirst := range []bool{true, false} {
+		for _, pin := range pins {
+			for _, path := range []string{"t", "c/x", "oldonly", "newonly"} {
+				for _, x := range stmts {
+					combo := fmt.Sprintf("revisions/%s/%s/%s/new-loaded-first=%v", pin.name, strings.ReplaceAll(path, "/", "."), x.name, newFirst)
+					mk(combo, newFirst, []Deviation{dev("dva", pin.tree, path, x.s)}, map[string]string{"dva": pin.imp})
+				}
+			}
+		}
+		// two deviating modules meaning different revisions: each tree gets its own deviation
+		for _, x := range stmts {
+			for _, path := range []string{"t", "c/x"} {
+				combo := fmt.Sprintf("revisions/two-modules/%s/%s/new-loaded-first=%v", strings.ReplaceAll(path, "/", "."), x.name, newFirst)
+				mk(combo+"/old+newest", newFirst, []Deviation{dev("dva", oldN, path, x.s), dev("dvb", newN, path, []DevStmt{st("replace", "default", "y")})},
+					map[string]string{"dva": oldN, "dvb": "b"})
+				mk(combo+"/newest+old", newFirst, []Deviation{dev("dva", newN, path, x.s), dev("dvb", oldN, path, []DevStmt{st("add", "units", "u2")})},
+					map[string]string{"dva": "b", "dvb": oldN})
+			}
+		}
+	}
 	return out
 }
 
@@ -1054,6 +1141,41 @@ func C08Random(r *rand.Rand) C08Case {
 	}
 	c.DevMods = mods
 	c.IgnoreNS = g.chance(0.3)
+	// when the set has an older second revision of a module loaded as well, a deviating module may pin it
+	// (import … { revision-date 2019-01-01; }): its deviations then mean the older revision's tree, which has
+	// the same nodes plus the leaf oldrev; without the pin they mean the newest, where oldrev does not exist
+	hasOld := map[string]*Module{}
+	for _, m := range set.Mods {
+		if m.File != "" {
+			hasOld[m.Name] = m
+		}
+	}
+	pinned := map[string]map[string]bool{}
+	impOf := map[string][][2]string{}
+	for _, dm := range mods {
+		pinned[dm] = map[string]bool{}
+		for _, im := range imports {
+			if hasOld[im[0]] != nil && g.chance(0.5) {
+				pinned[dm][im[0]] = true
+				impOf[dm] = append(impOf[dm], [2]string{im[0] + "@2019-01-01", im[1]})
+				continue
+			}
+			impOf[dm] = append(impOf[dm], im)
+		}
+	}
+	for name, o := range hasOld {
+		for _, k := range o.Body.Kids {
+			if k.Kw == "leaf" && k.Arg == "oldrev" {
+				for _, t := range tgts {
+					if t.m.Name == name {
+						// (mod = the newest revision, like every target: without the pin it is not there)
+						tgts = append(tgts, tgt{"/i" + name + ":oldrev", "/" + name + "/oldrev", "leaf", t.mod, k, SchemaPath{Names: []string{"oldrev"}, Kw: "leaf", ChoiceShorthand: []bool{false}}, t.m})
+						break
+					}
+				}
+			}
+		}
+	}
 	// a small pool of targets, so that several deviations meet on one node
 	var pool []tgt
 	for i := 0; i < 3 && len(tgts) > 0; i++ {
@@ -1074,6 +1196,9 @@ func C08Random(r *rand.Rand) C08Case {
 					t = pool[r.Intn(len(pool))]
 				}
 				d.Arg, d.Target, d.TargetMod = t.arg, t.dump, t.mod
+				if pinned[m][t.m.Name] {
+					d.TargetMod = t.m.Name + "@2019-01-01"
+				}
 				ns := 1 + r.Intn(3)
 				for j := 0; j < ns; j++ {
 					d.Stmts = append(d.Stmts, g.c08Stmt(t.kw, t.n, types))
@@ -1129,11 +1254,11 @@ func C08Random(r *rand.Rand) C08Case {
 	}
 	for _, m := range mods {
 		c.DevNames = append(c.DevNames, m+".yang")
-		c.DevTexts = append(c.DevTexts, devModuleTextX(m, imports, c.Devs, own[m], false))
+		c.DevTexts = append(c.DevTexts, devModuleTextX(m, impOf[m], c.Devs, own[m], false))
 	}
 	if len(own) > 0 {
 		for _, m := range mods {
-			c.StrippedDevTexts = append(c.StrippedDevTexts, devModuleTextX(m, imports, c.Devs, own[m], true))
+			c.StrippedDevTexts = append(c.StrippedDevTexts, devModuleTextX(m, impOf[m], c.Devs, own[m], true))
 		}
 	}
 	// now and then deviations written in a submodule of the base, naming nodes of the module it belongs
